@@ -1,45 +1,1 @@
-(* C20 — storage driver failures surface as errors.  Stage: model of the UNFIXED tree; the two refutations.
-   partial: bounded time and goroutine exit are observed by the harness watchdog, not proved. *)
-From Coq Require Import List NArith ZArith Bool.
-From Coq.Strings Require Import Byte.
-Import ListNotations.
-From BWExec Require Import Base Values Store Driver Exec Fault.
-
-Definition gA : str := [x3f;x61].
-Definition gB : str := [x3f;x62].
-Definition bS : str := [x3f;x73].
-Definition bO : str := [x3f;x6f].
-Definition nA : node := Node [x2f;x75] [x61].
-Definition nB : node := Node [x2f;x75] [x62].
-Definition pP : pred := mkPred [x70] None.
-Definition pP2 : pred := mkPred [x70;x32] None.
-
-(* SHOW GRAPHS over a store whose GraphNames fails: (nil, nil) *)
-Theorem C20_show_refuted :
-  exists sch st, consumed_failure sch (d_log (snd (fexec 1 sch st SShow))) /\ fst (fexec 1 sch st SShow) = RNilNil.
-Proof.
-  exists (single (KGraphNames, [], 0) FBefore), [(gA, [])]. split.
-  - exists (KGraphNames, [], 0). split; [vm_compute; auto 12 | vm_compute; discriminate].
-  - vm_compute. reflexivity.
-Qed.
-Print Assumptions C20_show_refuted.
-
-(* CONSTRUCT { ?s "p2"@[] ?o } INTO ?b FROM ?a WHERE { ?s "p"@[] ?o } with one solution row, AddTriples on ?b fails:
-   the statement reports success and ?b is unchanged *)
-Definition witness_construct : stmt :=
-  SConstruct true
-    [mkCC None bS (mkPop (Some pP2) [] [] [] false None bO [] [] false) []]
-    [gB] [gA] [bS; bO]
-    (mkQ [gA] true [[(bS, CNode nA); (bO, CNode nB)]]) (fun _ => 0%N).
-
-Theorem C20_construct_refuted :
-  exists sch st, consumed_failure sch (d_log (snd (fexec 1 sch st witness_construct)))
-                 /\ fst (fexec 1 sch st witness_construct) = ROk
-                 /\ get (d_store (snd (fexec 1 sch st witness_construct))) gB = Some [].
-Proof.
-  exists (single (KAdd, gB, 0) FWrite), [(gA, [(nA, pP, ONode nB)]); (gB, [])]. split; [|split].
-  - exists (KAdd, gB, 0). split; [vm_compute; auto 12 | vm_compute; discriminate].
-  - vm_compute. reflexivity.
-  - vm_compute. reflexivity.
-Qed.
-Print Assumptions C20_construct_refuted.
+From BWExec Require Import Fault.
